@@ -524,6 +524,9 @@ func (r *Real) Compare(h model.Heap) *Mismatch {
 			if len(g.S) != len(cell.E) {
 				return mis("Go slice #%d: len = %d, model has %d elements (%v vs %v)", id, len(g.S), len(cell.E), g.S, cell.E)
 			}
+			if g.S == nil {
+				return mis("Go slice #%d is nil; the content is an empty list, whose native form is an empty (non-nil) []any", id)
+			}
 			for i, exp := range cell.E {
 				if m := r.checkGoElem(h, exp, g.S[i], fmt.Sprintf("Go slice #%d[%d]", id, i), &work); m != nil {
 					return m
